@@ -10,7 +10,9 @@ import gen_declspec
 
 PID = 'C08'
 THEOREMS = ['C08_struct_layout_is_psabi', 'C08_members_disjoint', 'C08_bitfield_in_unit', 'C08_known_bad_is_real',
-            'C08_declspec_any_order', 'C08_nonvacuous']
+            'C08_declspec_any_order', 'C08_nonvacuous',
+            # package decl (Properties_C08_decl.v)
+            'C08_decl_declarator_is_c11', 'C08_decl_declarator_exact', 'C08_decl_abstract_declarator_is_c11', 'C08_decl_typename_is_c11', 'C08_decl_func_params_adjusted', 'C08_decl_size_align_is_psabi', 'C08_decl_size_align_any_base', 'C08_decl_static_restrict_ignored', 'C08_decl_every_type_has_a_declarator', 'C08_decl_unparse_parse', 'C08_decl_unparse_parse_typename', 'C08_decl_dummy_pass_sound', 'C08_decl_abstract_dummy_pass_sound', 'C08_decl_abstract_func_refuted', 'C08_decl_param_abstract_func_refuted', 'C08_decl_abstract_proto_rejected', 'C08_decl_big_bound_refuted', 'C08_decl_size_overflow_refuted', 'C08_decl_nonvacuous', 'C08_decl_nonvacuous_typename', 'C08_decl_nonvacuous_unparse', 'C08_decl_nonvacuous_with_layout']
 MODELRUN = os.path.join(VERIF, 'ocaml/modelrun')
 PRINTF = 'int printf(const char *, ...);\nvoid *memset(void *, int, unsigned long);\n'
 SCALARS = [('char', 1, 1), ('short', 2, 2), ('int', 4, 4), ('long', 8, 8), ('float', 4, 4), ('double', 8, 8),
@@ -181,7 +183,7 @@ def main():
         gen_declspec.gen(REPO, os.path.join(COQ, 'theories/Gen/DeclspecTable.v'))
     except GenError as e:
         run.proof_broken.append('translator: ' + str(e))
-    run.check_proofs(deps=['theories/Model/Layout.vo', 'theories/Spec/DeclspecSpec.vo', 'theories/Gen/DeclspecTable.vo'])
+    run.check_proofs(deps=['theories/Model/Layout.vo', 'theories/Spec/DeclspecSpec.vo', 'theories/Gen/DeclspecTable.vo'], extra=['decl'])
     NCORPUS = run_corpus(run, PID, src)          # minimised past failures first
     rc, o, e = sh([os.path.join(VERIF, 'ocaml/build.sh')], timeout=900)
     if rc != 0:
@@ -275,9 +277,14 @@ def main():
         if len(samples) < 3: samples.append({'aggregate': pool[-1].text, 'expected': exps[pool[-1].name][:3]})
     model.close()
 
+    # ---------------- tie of package decl: cases evaluated by the Coq spec and model (one coqc call) and by the real compiler ----------------
+    tie_dist = {}; tie_e = tie_n = 0; tie_samples = []
+    if not os.environ.get('VERIF_SKIP_PROOFS'):
+        tie_e, tie_n, tie_dist, tie_samples = run_tie(run, 'decl', src, 400 if run.quick() else 4000, 'aggregate')
     cov = dict(evaluations=evals, distinct_nontrivial=len(nontriv),
                rule='all permutations of all 6.7.2p2 specifier multisets with qualifiers interleaved (exhaustive for the multisets); random aggregates (structs/unions, nesting, arrays, anonymous members, named/unnamed/zero-width bit-fields of 8 base types, packed, aligned(n), _Alignas, flexible arrays): sizeof/_Alignof/offsets/bit images; non-trivial = has bit-fields or packed/aligned attributes',
                samples=samples, input_distribution=dist, spec_vs_reference_disagreements=model_vs_gcc)
+    cov['rule'] = cov.get('rule', '') + ' ' + "(d) package decl: random declarators of depth 1-6 in three contexts (variable, parameter, type name) over scalar and struct base types: sizeof / _Alignof chains and _Generic probes of the compiled program = Coq spec of 6.7.6 = Coq model of parse.c's declarator functions on the token list; gcc cross-checks the spec"; cov['tie_decl'] = tie_dist; cov['evaluations'] = cov.get('evaluations', 0) + tie_e; cov['distinct_nontrivial'] = cov.get('distinct_nontrivial', 0) + tie_n
     return run.finish(cov,
         ['gcc 12 is the "other compiler" of the property; the proved model is additionally compared with it (disagreements outside the known exclusions break the correspondence)'],
         ['Coq 8.16.1 kernel (vm_compute for the permutation sweep over the regenerated switch; no native_compute)',
